@@ -71,7 +71,7 @@ class GBlock:
         self.height = height
         self.txs = txs
         prev = parent.hash if parent else ZERO
-        merkle = double_sha256(b''.join(t.txid for t in txs))   # any 32 bytes do for the index
+        merkle = merkle_root([t.txid for t in txs])
         self.header = (struct.pack('<I', 1) + prev + merkle + struct.pack('<III', 1_600_000_000 + height,
                                                                           0x207fffff, nonce))
         self.hash = double_sha256(self.header)
@@ -92,6 +92,16 @@ class GBlock:
             out.append(b)
             b = b.parent
         return out[::-1]
+
+
+def merkle_root(hashes):
+    """Independent Bitcoin merkle root (duplicate the last node of an odd level)."""
+    level = list(hashes)
+    while len(level) > 1:
+        if len(level) & 1:
+            level.append(level[-1])
+        level = [double_sha256(level[i] + level[i + 1]) for i in range(0, len(level), 2)]
+    return level[0]
 
 
 def unspendable(act, height, script):
@@ -160,6 +170,46 @@ class Gen:
         if len({s for _v, s in outs}) < len(outs):
             self.bump('txs_with_duplicate_script_outputs')
         return outs
+
+    def new_tx(self, utxos, pool_outs=(), max_in=2, prefer=None):
+        """A fresh transaction spending from `utxos` (confirmed view: {(txid, idx): (value, script)})
+        and/or `pool_outs` (list of ((txid, idx), (value, script)) of unconfirmed parents)."""
+        rng = self.rng
+        ins = []
+        cands = list(utxos.keys())
+        pool = list(pool_outs)
+        for _ in range(rng.randrange(1, max_in + 1)):
+            if prefer and rng.random() < 0.7:
+                k = rng.choice(prefer)
+            elif pool and rng.random() < 0.4:
+                k = rng.choice(pool)[0]
+            elif cands:
+                k = rng.choice(cands)
+            else:
+                k = (ZERO, MINUS_1)
+            if k not in ins:
+                ins.append(k)
+        if not ins:
+            ins = [(ZERO, MINUS_1)]
+        return GTx(ins, self._outs(10 ** 9, rng.choice([1, 1, 2, 3])), nonce=rng.getrandbits(64))
+
+    def block_with(self, parent, txs):
+        """A block on `parent` containing a fresh coinbase and exactly the given transactions
+        (already valid, in order, on top of the parent's UTXO view)."""
+        rng = self.rng
+        height = parent.height + 1 if parent else 0
+        utxos = dict(parent.utxos) if parent else {}
+        created = []
+        cb = GTx([(ZERO, MINUS_1)], self._outs(height, rng.choice([1, 2])), nonce=rng.getrandbits(64))
+        all_txs = [cb] + list(txs)
+        for t in all_txs:
+            self._apply(t, height, utxos, created)
+        b = GBlock(len(self.blocks), parent, height, all_txs, rng.getrandbits(32))
+        b.utxos = utxos
+        self.blocks.append(b)
+        self.bump('blocks')
+        self.bump('txs', len(all_txs))
+        return b
 
     def new_block(self, parent, max_txs=6):
         rng = self.rng
